@@ -52,10 +52,19 @@ def run(ctx):
                         jobs.append(dict(path=lay[s["id"]]["path_" + f], id=s["id"], fmt=f, total=total, cuts=sub, cli=cli if s["kind"] == "real" else "",
                                          ncli=(1 if ctx.quick else 3) if (s["kind"] == "real" and k == 0) else 0))
     with ThreadPoolExecutor(8) as ex:
-        results = list(ex.map(lambda j: ctx.run_vh(["c15"], j, timeout=3000), jobs))
+        results = list(ex.map(lambda j: ctx.run_vh(["c15"], j, timeout=3000, allow_crash=True), jobs))
     ncuts = 0
     outcomes = {}
-    for j, res in zip(jobs, results):
+    for j, st in zip(jobs, results):
+        res = st["results"]
+        if st["rc"] != 0:
+            # reading a truncated file must never bring the process down (a panic in a goroutine of the reader cannot be recovered)
+            try:
+                cut = int(open(j["path"] + ".progress").read())
+            except Exception:
+                raise Infra("c15 driver died: " + st["tail"][-600:])
+            ctx.violation("reading the first %d of %d bytes of a %s file (%s) crashes the process: %s" % (cut, j["total"], j["fmt"], j["id"], [l for l in st["tail"].splitlines() if "panic" in l or "fatal" in l][:2]),
+                          dict(kind="c15", cases=dict(j, cuts=[cut]), layout={k: v for k, v in lay[j["id"]].items() if not k.startswith("path")}))
         ncuts += len(j["cuts"])
         for x in res:
             if x.get("kind") == "infra":
